@@ -111,10 +111,10 @@ _CHURN_LOOP = ("var bad = 0; var r = 0; while r < %d { var C = nil; if r %% 3 ==
 CHURN_PROBES = [
     ("churn.class.invoke", _CHURN_SHAPES + _CHURN_LOOP % (240, "if h.who() != r { bad = bad + 1; }")),
     ("churn.class.bound", _CHURN_SHAPES + _CHURN_LOOP % (240, "var m = h.who; if m() != r { bad = bad + 1; }")),
-    ("churn.class.static", _CHURN_SHAPES + _CHURN_LOOP % (240, "if C.swho() != r { bad = bad + 1; } if h.swho() != r { bad = bad + 1; }")),
-    ("churn.class.super", _CHURN_SHAPES + _CHURN_LOOP % (240, "if r %% 7 == 0 && r %% 3 != 0 { if h.up() != 0 - r { bad = bad + 1; } } if h.who() != r { bad = bad + 1; }")),
-    ("churn.class.protocol", _CHURN_SHAPES + _CHURN_LOOP % (240, "if r %% 3 == 0 { for x in h { if x != r { bad = bad + 1; } } } if type(h) != C { bad = bad + 1; } if !h.derives(C) { bad = bad + 1; }")),
-    ("churn.class.field.over.method", _CHURN_SHAPES + _CHURN_LOOP % (240, "if r %% 2 == 0 { h.who = || r + 1000; if h.who() != r + 1000 { bad = bad + 1; } } else { if h.who() != r { bad = bad + 1; } }")),
+    ("churn.class.static", _CHURN_SHAPES + _CHURN_LOOP % (240, "if r % 3 == 0 || r % 7 != 0 { if C.swho() != r { bad = bad + 1; } if h.swho() != r { bad = bad + 1; } } else { if h.swho() != 0 - r { bad = bad + 1; } }")),
+    ("churn.class.super", _CHURN_SHAPES + _CHURN_LOOP % (240, "if r % 7 == 0 && r % 3 != 0 { if h.up() != 0 - r { bad = bad + 1; } } if h.who() != r { bad = bad + 1; }")),
+    ("churn.class.protocol", _CHURN_SHAPES + _CHURN_LOOP % (240, "if r % 3 == 0 { for x in h { if x != r { bad = bad + 1; } } } if type(h) != C { bad = bad + 1; } if !h.derives(C) { bad = bad + 1; }")),
+    ("churn.class.field.over.method", _CHURN_SHAPES + _CHURN_LOOP % (240, "if r % 2 == 0 { h.who = || r + 1000; if h.who() != r + 1000 { bad = bad + 1; } } else { if h.who() != r { bad = bad + 1; } }")),
     ("churn.closures", "fn pad(n) { var g = []; var i = 0; while i < n { g.push([i]); i = i + 1; } return g; } fn mk(tag) { if tag % 3 == 0 { return || tag; } return |x| tag + x; } "
                        "var bad = 0; var r = 0; while r < 300 { var f = mk(r); if r % 3 == 0 { if f() != r { bad = bad + 1; } } else { if f(1) != r + 1 { bad = bad + 1; } } pad(r % 4); r = r + 1; } print(bad);"),
     ("churn.fibers", "fn pad(n) { var g = []; var i = 0; while i < n { g.push([i]); i = i + 1; } return g; } var bad = 0; var r = 0; while r < 200 { var fb = nil; "
